@@ -8,7 +8,8 @@ def h(b):
     return b.hex() if b else "-"
 
 LITS = ["a", "ab ", "x=", " ", ",", "[]", "end", "\t|"]
-STRS = [b"", b"hey", b"a b", b"\x80\xff", b"quo\"te", b"back\\slash", b"tab\there"]
+STRS = [b"", b"hey", b"a b", b"\x80\xff", b"quo\"te", b"back\\slash", b"tab\there",
+        b"50%% off", b"100%", b"%d", b"%s%n", b"%", b"%5.2f%%", b"{}", b"$"]          # argument text is data: '%' in it means nothing
 
 def int_spec(rng):
     c = rng.choice("diuoxXc")
@@ -118,8 +119,16 @@ def round_execs(rng, quick):
     for e in range(-300, 300, 30 if quick else 3):
         fv += [fbits(rng.uniform(1, 10) * 10.0 ** e), fbits(-rng.uniform(1, 10) * 10.0 ** e)]
     fv += [fbits(x) for x in (0.0, 1.0, -1.0, 0.5, 123456.789012, 1e15 + 0.3, 2.5e-7, 1.7976931348623157e308, 5e-324)]
-    strs = [b"", b"a", b'"', b"\\", b"a\nb", b"\a\b\f\n\r\t\v", b"'?", b"\x80\xfe\xff", b"mixed \"q\" \\ \t end", b"\\n"]
+    strs = [b"%", b"%%", b"%d %s", b"100%\n", b"", b"a", b'"', b"\\", b"a\nb", b"\a\b\f\n\r\t\v", b"'?", b"\x80\xfe\xff", b"mixed \"q\" \\ \t end", b"\\n"]
     strs += [bytes(rng.randint(1, 255) for _ in range(rng.randint(0, 12))) for _ in range(200 if quick else 2000)]
+    # every string of length <= 2 (thorough: <= 3) over the characters the escape layer treats specially and their neighbours
+    # (the Codec model is exhaustive over the same classes): combinations matter, e.g. "??", "\\n", "\\" + digit
+    alpha = b"\a\b\f\n\r\t\v\\?'\"abfnrtvx0 7\x80%"
+    strs += [bytes([a]) for a in alpha] + [bytes([a, b]) for a in alpha for b in alpha]
+    if not quick:
+        strs += [bytes([a, b, c]) for a in alpha for b in alpha for c in alpha]
+    else:
+        strs += [bytes(rng.choice(alpha) for _ in range(rng.randint(3, 6))) for _ in range(300)]
     for v in ivals: lines.append("rt %s %d I %d" % (rng.choice("SF"), rng.choice([0, 3, 17]), v))
     for b in fv: lines.append("rt %s %d F %016x" % (rng.choice("SF"), rng.choice([0, 3, 17]), b))
     for s in strs: lines.append("rt %s %d S %s" % (rng.choice("SF"), rng.choice([0, 3, 17]), h(s)))
